@@ -49,3 +49,10 @@ claim("C12",
       "cpusets over 4 CPUs and limits incl. Unlimited, any cache subset, chained rewrites. The real LeveledUpdateBatch and applyCPUSetWithNonePolicy are run on the same cases (both cgroup versions, five files) and every snapshot is checked by TLC.",
       "Trusted: TLC, system.NewFileTestUtil temp cgroup root (cannot refuse a write as a kernel would), the harness's write detector. One hierarchical file per rewrite; depth <= 3.",
       "DESIGN.md 5 C12")
+claim("C16",
+      "TLA+ spec EvictionCaps (callers as processes; Caps / Counters invariants; as-found vs atomic design): TLC exhaustive MC of the design over all interleavings of 3 callers; TLC-generated start/finish schedules (every interleaving) and random schedules of up to 8 callers replayed deterministically on the real PodEvictor and evictorProxy+EvictionLimiter through a blocking fake API, each recorded run validated by TLC (trace validation)",
+      "TLC proves on the model that reserving the slot under the lock keeps successful evictions within the per-node / per-namespace / total caps and the counters equal to the evictions at quiescence for all interleavings (and exhibits the race of the as-found design). "
+      "Every interleaving of start/finish steps of 2-3 callers, with API failures and all cap settings, is then forced on the real code by parking callers inside the API call; TLC checks Caps on the successful evictions, the reported counters at quiescence, "
+      "refused => no side effect and dry-run => no API call. (Arbitration-round half of the property: being added, see DESIGN.md.)",
+      "Trusted: TLC, the parking fake eviction client / evict plugin. Schedule granularity: a caller is observed when it is refused, parks inside the API call, or returns.",
+      "DESIGN.md 5 C16")
